@@ -13,6 +13,12 @@
 //     client connection (`x.Context = &trafficshape.Context{}` under a type
 //     assertion to *trafficshape.Conn) stands BEFORE the dispatch
 //     `if req.Method == "CONNECT"` (shaping_reset_before_connect);
+//   - proxy.go calls SetLinger nowhere (dial_sets_linger = false): the proxy's
+//     Close of a connection it dialled is graceful, queued bytes are still sent;
+//   - trafficshape/conn.go: (*Conn).WriteTo and (*Conn).ReadFrom — the two halves
+//     of a tunnel on a shaped listener — take their tokens with FillThrottle, not
+//     FillThrottleLocked (shaped_copy_unlocked): no lock of the listener-wide
+//     bucket is held across a blocking read of one tunnel's connection;
 //   - connect(): which answers of the downstream proxy are taken as "tunnel
 //     established, no body": `res.StatusCode/100 == 2` (downstream_any_2xx) as
 //     opposed to a comparison with 200 / http.StatusOK.
@@ -226,6 +232,50 @@ func main() {
 		}
 	}
 
+	// SetLinger anywhere in proxy.go
+	setsLinger := false
+	ast.Inspect(f, func(n ast.Node) bool {
+		if c, ok := n.(*ast.CallExpr); ok {
+			if sel, ok := c.Fun.(*ast.SelectorExpr); ok && sel.Sel.Name == "SetLinger" {
+				setsLinger = true
+			}
+		}
+		return true
+	})
+
+	// trafficshape.Conn.WriteTo / ReadFrom
+	tf, err := parser.ParseFile(fset, filepath.Join(*repo, "trafficshape", "conn.go"), nil, 0)
+	if err != nil {
+		fail("%v", err)
+	}
+	unlocked, seen := true, 0
+	for _, d := range tf.Decls {
+		fd, ok := d.(*ast.FuncDecl)
+		if !ok || fd.Recv == nil || fd.Body == nil || (fd.Name.Name != "WriteTo" && fd.Name.Name != "ReadFrom") {
+			continue
+		}
+		plain := false
+		ast.Inspect(fd.Body, func(n ast.Node) bool {
+			if c, ok := n.(*ast.CallExpr); ok {
+				if sel, ok := c.Fun.(*ast.SelectorExpr); ok {
+					switch sel.Sel.Name {
+					case "FillThrottle":
+						plain = true
+					case "FillThrottleLocked":
+						unlocked = false
+					}
+				}
+			}
+			return true
+		})
+		if plain {
+			seen++
+		}
+	}
+	if seen != 2 && unlocked {
+		fail("trafficshape/conn.go: WriteTo and ReadFrom calling FillThrottle not found (%d)", seen)
+	}
+
 	b := func(v bool) string {
 		if v {
 			return "true"
@@ -239,7 +289,9 @@ func main() {
 		"Definition loop_defers_conn_close : bool := " + b(deferClose) + ".\n" +
 		"Definition downstream_any_2xx : bool := " + b(any2xx) + ".\n" +
 		"Definition connect_defers_cconn_close : bool := " + b(defersCconn) + ".\n" +
-		"Definition shaping_reset_before_connect : bool := " + b(resetBefore) + ".\n"
+		"Definition shaping_reset_before_connect : bool := " + b(resetBefore) + ".\n" +
+		"Definition dial_sets_linger : bool := " + b(setsLinger) + ".\n" +
+		"Definition shaped_copy_unlocked : bool := " + b(unlocked) + ".\n"
 	if err := os.WriteFile(filepath.Join(*out, "Gen_Ret.v"), []byte(src), 0o644); err != nil {
 		fail("%v", err)
 	}
